@@ -351,6 +351,8 @@ type AtCall struct {
 }
 
 type SpecFn struct {
+	Decl   string // declaration text (to recognise a conflicting redefinition)
+	File   string
 	Name   string
 	Params []SVar
 	Ret    string
@@ -523,6 +525,11 @@ func (S *Specs) LoadSpecFile(path, pkgPath string) error {
 			if err != nil {
 				return fail(l.n, "%v", err)
 			}
+			if prev, dup := S.SpecFns[sf.Name]; dup && strings.Join(strings.Fields(prev.Decl), " ") != strings.Join(strings.Fields(rest), " ") {
+				// spec functions live in one name space: a second, different definition would silently replace the first
+				return fail(l.n, "spec function %s is already defined differently in %s", sf.Name, prev.File)
+			}
+			sf.Decl, sf.File = rest, path
 			S.SpecFns[sf.Name] = sf
 			curSpec = sf
 		case "assume-global":
